@@ -3,6 +3,7 @@ module verif/h2
 go 1.20
 
 require (
+	golang.org/x/tools v0.16.1
 	k8s.io/gengo/v2 v2.0.0
 	verif/common v0.0.0
 )
@@ -10,7 +11,6 @@ require (
 require (
 	github.com/go-logr/logr v0.2.0 // indirect
 	golang.org/x/mod v0.14.0 // indirect
-	golang.org/x/tools v0.16.1 // indirect
 	k8s.io/klog/v2 v2.2.0 // indirect
 )
 
